@@ -439,7 +439,9 @@ func c01genFastq(shape, pos int) c01rec {
 }
 
 // --- flat files: taxon xref x organism line x definition lines x sequence length
-var c01ffLens = []int{1, 60, 61}
+// -1: a GenBank entry of the CON division (a CONTIG join(...) line instead of the ORIGIN section: no sequence);
+// EMBL gets a 2-base record for that shape
+var c01ffLens = []int{1, 60, 61, -1}
 
 func c01nFlat() int { return 2 * 2 * 2 * len(c01ffLens) }
 
@@ -453,9 +455,17 @@ func c01flatShape(shape int) (tax, sci, def2 bool, n int) {
 
 func c01genGenbank(shape, pos int) c01rec {
 	tax, sci, def2, n := c01flatShape(shape)
+	contig := n < 0
+	if contig {
+		n = 0
+	}
 	r := c01rec{Id: fmt.Sprintf("GB%d_%d", pos, shape), Seq: c01seq(pos, shape, n)}
 	var sb strings.Builder
-	fmt.Fprintf(&sb, "LOCUS       %-16s %7d bp    DNA     linear   PRI 01-JAN-2000\n", r.Id, n)
+	if contig {
+		fmt.Fprintf(&sb, "LOCUS       %-16s %7d bp    DNA     linear   CON 01-JAN-2000\n", r.Id, 500)
+	} else {
+		fmt.Fprintf(&sb, "LOCUS       %-16s %7d bp    DNA     linear   PRI 01-JAN-2000\n", r.Id, n)
+	}
 	if def2 {
 		fmt.Fprintf(&sb, "DEFINITION  Synthetic clone %d gene,\n            complete cds.\n", pos)
 		r.Def = fmt.Sprintf("Synthetic clone %d gene, complete cds.", pos)
@@ -474,6 +484,12 @@ func c01genGenbank(shape, pos int) c01rec {
 		r.Feat += fmt.Sprintf("\n                     /db_xref=\"taxon:%d\"", r.Taxid)
 	}
 	sb.WriteString(r.Feat)
+	if contig {
+		// no ORIGIN section: the entry has no nucleotides of its own
+		fmt.Fprintf(&sb, "\nCONTIG      join(AB%06d.1:1..250,gap(20),\n            AB%06d.1:1..230)\n//\n", pos, pos+1)
+		r.Text = sb.String()
+		return r
+	}
 	sb.WriteString("\nORIGIN      \n")
 	for i := 0; i < n; i += 60 {
 		fmt.Fprintf(&sb, "%9d", i+1)
@@ -500,6 +516,9 @@ const c01gbRelease = "GBSYN1.SEQ          Genetic Sequence Data Bank\n" +
 
 func c01genEmbl(shape, pos int) c01rec {
 	tax, sci, def2, n := c01flatShape(shape)
+	if n < 0 {
+		n = 2
+	}
 	r := c01rec{Id: fmt.Sprintf("EM%d_%d", pos, shape), Seq: c01seq(pos, shape, n)}
 	var sb strings.Builder
 	fmt.Fprintf(&sb, "ID   %s; SV 1; linear; genomic DNA; STD; SYN; %d BP.\nXX\nAC   %s;\nXX\n", r.Id, n, r.Id)
@@ -1671,13 +1690,13 @@ func TestVerifC01(t *testing.T) {
 		// fastq: shape = len + 3*(qk + 4*(sk + 2*hk))
 		"fastq": {0, 1 + 3*(1+4*(0+2*0)), 1 + 3*(2+4*(1+2*1)), 1 + 3*(3+4*(1+2*2)), 0 + 3*(1+4*(0+2*2)), 2 + 3*(0+4*(1+2*1)), 1 + 3*(1+4*(1+2*2))},
 		// flat: tax | sci<<1 | def2<<2 + 8*len
-		"genbank": {0, 3, 1 + 4 + 8, 2 + 16},
+		"genbank": {0, 3, 1 + 4 + 8, 2 + 16, 1 + 24}, // 24..: CONTIG entry (no ORIGIN section)
 		"embl":    {0, 3, 1 + 4 + 8, 2 + 16},
 	}
 	reduced := map[string][]int{
 		"fasta":   {0, 11 + 5, 22 + 10},
 		"fastq":   {1 + 3*(1+4*(0+2*0)), 1 + 3*(2+4*(1+2*1)), 0 + 3*(3+4*(1+2*2))},
-		"genbank": {0, 3},
+		"genbank": {0, 3, 24},
 		"embl":    {0, 3},
 	}
 	type plan struct {
